@@ -23,6 +23,10 @@ def run(tier):
     for i in range(600 if thorough else 150):
         p, root, src = gen_core.gen_program(vlib.seed() * 1000000 + 500000 + i, feats={"func", "varargs", "table", "closure"}, err_rate=0.05)
         fams.append(("randcall", p, root, src))
+    for p, root in gen_calls.minimal_callees():
+        fams.append(("minimal", p, root, None))
+    for p, root in gen_calls.select_cases():
+        fams.append(("select", p, root, None))
     # the same call shapes among many constants (operands beyond the RK range live in registers)
     import copy
     padded = [sp for sp in shapes if sp[0][-1] in ("method", "callobj", "lua")]
@@ -46,7 +50,7 @@ def run(tier):
             k += 1
     verd, cov, allv, allo, stats = lsem.run_families(
         PROP, tier, progs + tprogs,
-        "call shapes = product of (#params 0..3) x (fixed/.../arg/return ...) x (#args 0..4) x 21 result contexts x (#results 0..3) x callee kind (Lua, __call object, host, method, host re-entry), sampled from %d shapes; random nestings; random programs with functions; tail-call loops of depth 500 under CallStackSize 32 (fixed and auto-growing stack); distinct by source hash, non-trivial = validated ok with >= 1 emit event" % nshapes,
+        "call shapes = product of (#params 0..3) x (fixed/.../arg/return ...) x (#args 0..4) x 21 result contexts x (#results 0..3) x callee kind (Lua, __call object, host, method, host re-entry), sampled from %d shapes; random nestings; callees that use nothing but their parameters reached by call/tail call/pcall/method/host re-entry with too few and too many arguments; select(n, ...) for every n around the list bounds in every all-results context; random programs with functions; tail-call loops of depth 500 under CallStackSize 32 (fixed and auto-growing stack); distinct by source hash, non-trivial = validated ok with >= 1 emit event" % nshapes,
         [], t0, max_steps=80000, nontrivial_min_emits=1)
     # tail family: every loop (except the non-tail control) must have completed without error
     for p in tprogs:
